@@ -362,7 +362,49 @@ func C19(ctx *core.Ctx) {
 	// ---- R3 -------------------------------------------------------------------------
 	c19Taint(ctx, cc, cone, res)
 
+	ctx.Rule("C19.R6", "output does not depend on what the output directory held before: a file opened with O_CREATE for writing is opened with O_TRUNC", 1)
+	{
+		n := 0
+		for _, fn := range cone {
+			for _, c := range ssax.Calls(fn) {
+				if c.FullName() != "os.OpenFile" {
+					continue
+				}
+				flags, isK := ssax.ConstInt(c.Args()[1])
+				if !isK {
+					ctx.Undecided("C19.R6", QName(fn)+" › os.OpenFile flags", cc.IPos(c.Instr), "flags are not a constant")
+					continue
+				}
+				const oWRONLY, oRDWR, oAPPEND, oCREATE, oTRUNC = 0x1, 0x2, 0x400, 0x40, 0x200
+				if flags&oCREATE == 0 || flags&(oWRONLY|oRDWR) == 0 {
+					continue // opens a file this run has created (os.Create truncates)
+				}
+				n++
+				ctx.Check(flags&oTRUNC != 0 || flags&oAPPEND != 0, "C19.R6", QName(fn)+sprintf(" › output file #%d is truncated when it already exists", n), cc.IPos(c.Instr), "O_CREATE|O_TRUNC",
+					"an existing output file is overwritten in place without being truncated: when the new content is shorter, the tail of whatever an earlier run (or another program) left in the output directory stays in the file")
+			}
+		}
+		if n == 0 {
+			ctx.Discharge("C19.R6", "cone(compiler.Compile) › no create-without-truncate", cc.FPos(entry), "no os.OpenFile with O_CREATE for writing (os.Create truncates)")
+		}
+	}
 	// ---- R4 -------------------------------------------------------------------------
+	ctx.Rule("C19.R5", "no compilation state outside package globals: no other package-level variable is written or mutated in place by the compile cone", 1)
+	{
+		muts := packageStateMutations(cone, cc.Fns, globalsPkg)
+		var gs []*ssa.Global
+		for g := range muts {
+			gs = append(gs, g)
+		}
+		sort.Slice(gs, func(i, j int) bool { return gs[i].String() < gs[j].String() })
+		for _, g := range gs {
+			ctx.Violate("C19.R5", g.Pkg.Pkg.Name()+"."+g.Name()+" › package-level state written during compilation", cc.V.Pos(g.Pos()),
+				"the variable is "+muts[g]+": it outlives the compilation (it is not one of the globals Reset re-initialises), so what a later Compile in the same process emits depends on what was compiled before (stale parse trees, trees rewritten by another generator)")
+		}
+		if len(gs) == 0 {
+			ctx.Discharge("C19.R5", "cone(compiler.Compile) › no package-level state outside globals is written", cc.FPos(entry), sprintf("%d functions scanned", len(cone)))
+		}
+	}
 	if globalsPkg != nil {
 		reset := cc.Fn("C19.R4", "globals", "Reset")
 		deferred := false
